@@ -54,6 +54,23 @@ checks.update({
    text="500 (quick) / 30k (thorough) sequences of write/overwrite (longer, shorter, empty)/read/read-absent/list(prefix)/Copy over nested names; prefixes at and inside component boundaries; after every op all regular files under the root are exactly <bucket>/<name> of the model.",
    note="Names are ordinary slash-separated components; GCS backend not exercised.", ref="§2 C18"),
 })
+checks.update({
+ "C11": dict(cat="exploration", tech="runtime differential monitoring of three real components chained through files (uploader -> upload handler -> viewer) against the documented configuration semantics",
+   text="300 (quick) / 6k (thorough) configurations and data sets (all rates 1, no sampling; builds with each of the five identity fields individually inside/outside the configuration; approved names, near-misses, stacks): the real uploader's posted bodies are replayed to the real upload handler configured identically (must be 200; with any one unapproved item spliced in must be 400), and the viewer's newCounterFile/summary for the same files must say 'no data uploaded' / 'excluded' / Active exactly where the uploader omitted/kept things; the uploader's build verdicts must equal the five-field semantics.",
+   note="Approval is isolated from sampling (rates 1). The three legs run in one vcheck invocation and are chained through files.", ref="§2 C11"),
+ "C14": dict(cat="exploration", tech="runtime monitoring of telemetryCounterName: loop-tick budget and panic guard, differential oracle (harness's own relocated PC list through EncodeStack), metamorphic variants, canary scan; real crashes of the re-executed test binary",
+   text="12k (quick) / 1M (thorough) crash texts (random bytes; grammar-built tracebacks with genuine PCs of the binary relocated by several sentinel deltas, 0-200 frames, sigpanic look-alikes, frames without pc=, missing/garbled/repeated sentinels, a 300-byte function name so that 16 frames exceed the 4096-byte limit) plus three metamorphic variants each differing only in non-PC text: terminates, result shape and bounds, equals EncodeStack of the harness's PC list, variants agree or error, no canary in the name. 14 real crashes (panic, nil deref, nil map, inlined index, divide, bad unlock, stack overflow; main and other goroutine) captured through crashmonitor.Parent and named in-process must list verifCrashC/B/A in order.",
+   note="Crasher and namer are the same non-PIE executable.", ref="§2 C14"),
+ "C16": dict(cat="exploration", tech="runtime monitoring of real process trees: process-start log appended by the re-executed test binary acting as application, sidecar and `go` command; directory snapshots; token race under the token-passing scheduler and with real processes",
+   text="The 840-row decision table (child marker x ReportCrashes x Upload x mode x token age; TelemetryDir vs default location; local/ present or not) is run as real processes (quick: every third row, rotating with the seed; thorough: all): sidecar iff permitted, upload flag iff token acquired, no marker-1 process below a marker-1/2 process (the uploader child's `go mod download` is this binary again), mode off: nothing started or written. acquireUploadToken is raced by 2-6 virtual threads under the scheduler (yield at its Stat/Remove/OpenFile) and by 2-24 real processes: at most one winner.",
+   note="Descendants are awaited by scanning /proc for a per-run id (20 s watchdog => inconclusive). Stale-token races are excluded as in the property.", ref="§2 C16"),
+ "C17": dict(cat="exploration", tech="runtime monitoring: loop-tick budget + panic guard on the parser over generated texts; round trip through an independent renderer; reference version orders as oracle for the generated config",
+   text="20k (quick) / 2M (thorough) texts (random bytes, mutations of the shipped config.txt, grammar soup) must parse or fail cleanly; 3k/300k record sets rendered by an independent renderer of the documented syntax (random field order, spacing, comments, multi-line bucket lists, repeated issues) must parse back DeepEqual; 3k/300k valid record sets through generate() with proxy answers replaced: counter placement (stack iff depth>0), version lists contain everything not older than the smallest minimum in the right order (independent semver / Go-version comparators); padVersions superset/sorted/duplicate-free.",
+   note="Proxy queries are replaced through versionsForTesting; padVersions inputs are duplicate-free canonical lists.", ref="§2 C17"),
+ "C19": dict(cat="exploration", tech="runtime monitoring of the real command as a subprocess: before/after directory snapshots (content hash, mtime, symlinks) as oracle",
+   text="140 (quick) / 5k (thorough) generated telemetry directories (data files by the exact patterns, 15 near-misses, data-named directories empty/non-empty, symlinks, foreign files, missing local/upload, ten mode-file states) x command sequences of length 1-6 over {on, local, off, clean, env}: clean leaves no regular data file and touches nothing else; mode commands touch only the mode file, not even its mtime when the mode already reads as requested, else env and the file show the requested mode with today's UTC date.",
+   note="The command is main() reached by re-executing the test binary with XDG_CONFIG_HOME/HOME redirected. Data-named directories/symlinks are don't-care.", ref="§2 C19"),
+})
 todo = {
 }
 names = ["C%02d" % i for i in range(1, 20)]
